@@ -18,9 +18,17 @@ CONFIG = {
         level="fault_enumeration",
         tiers=dict(
             quick=dict(runs=64, opts=dict(faultspec=dict(mode="sample", count=36, interrupts=3), real_frac=0.06, real_count=8, pairs=0, limit=300)),
-            thorough=dict(runs=1600, opts=dict(faultspec=dict(mode="all", interrupts=40), slices=4, real_frac=0.04, real_count=12, pairs=1, limit=900)),
+            thorough=dict(runs=960, opts=dict(faultspec=dict(mode="all", interrupts=40), slices=4, real_frac=0.04, real_count=12, pairs=1, limit=900)),
         ),
         det=dict(quick=8, thorough=32),
+        extra_stages=[
+            dict(
+                name="multi-session histories with faults (crash recovery across sessions)",
+                engine="store",
+                runs=dict(quick=1200, thorough=120000),
+                opts=dict(config="c38h"),
+            )
+        ],
     ),
     "C02": dict(
         engine="runner",
@@ -36,7 +44,7 @@ CONFIG = {
         level="exploration",
         tiers=dict(
             quick=dict(runs=160, opts=dict(n_widths=3, n_schedules=2, limit=300)),
-            thorough=dict(runs=5000, opts=dict(n_widths=4, n_schedules=3, w_fidelity=0.3, limit=600)),
+            thorough=dict(runs=3200, opts=dict(n_widths=4, n_schedules=3, w_fidelity=0.3, limit=600)),
         ),
         det=dict(quick=16, thorough=48),
     ),
@@ -194,7 +202,19 @@ def run_check(args):
             print(f"[{prop} {args.tier}] {n}/{len(seeds)} runs, {REAL_PERF() - t0:.0f}s", file=sys.stderr, flush=True)
 
     results = batch.run_seeds(cfg["engine"], seeds, args.tier, args.jobs, tc["opts"], wall_budget=args.budget, progress=progress if args.tier == "thorough" else None)
+    stage_results = []
+    for si, st in enumerate(cfg.get("extra_stages", [])):
+        n = st["runs"][args.tier] if not args.runs else max(1, args.runs // 4)
+        sseeds = [int(args.seed) * SEED_STRIDE + 500_000 + i for i in range(n)]
+        rs = batch.run_seeds(st["engine"], sseeds, args.tier, args.jobs, st["opts"], wall_budget=args.budget)
+        for r in rs:
+            r["_stage"] = si
+        stage_results.append((st, rs))
     wall = REAL_PERF() - t0
+    main_results = results
+    results = list(results)
+    for st, rs in stage_results:
+        results += rs
     herr = [r for r in results if r.get("harness_error")]
     if herr:
         for r in herr[:3]:
@@ -210,7 +230,7 @@ def run_check(args):
             if f is not None:
                 known_seen.setdefault(f["id"], [f, 0])[1] += 1
                 continue
-            groups.setdefault((v["cls"], v.get("key")), []).append((r, v))
+            groups.setdefault((v["cls"], v.get("key"), r.get("_stage")), []).append((r, v))
     exit_code = batch.EXIT_OK
     for f, n in known_seen.values():
         out(f"KNOWN-FINDING: property={prop} {f['what']} (seen {n}x)")
@@ -220,26 +240,28 @@ def run_check(args):
     ordered = sorted(groups.items(), key=lambda kv: str(kv[0]))
     if getattr(args, "only_key", None):
         ordered = [kv for kv in ordered if args.only_key in str(kv[0])]
-    for gi, ((cls, key), items) in enumerate(ordered):
+    for gi, ((cls, key, stage_i), items) in enumerate(ordered):
         r, v = items[0]
+        eng = cfg["engine"] if stage_i is None else cfg["extra_stages"][stage_i]["engine"]
+        mod_g = batch.engine_module(eng)
         nviol += len(items)
         if gi >= MAX_GROUPS:
             continue
         case = r["case"]
-        if hasattr(mod, "focus"):
-            case = mod.focus(case, v)
-        res1 = batch.run_case(cfg["engine"], case)
+        if hasattr(mod_g, "focus"):
+            case = mod_g.focus(case, v)
+        res1 = batch.run_case(eng, case)
         batch.put_first(res1, cls)
         if res1.get("harness_error") or not batch.has_class(res1, cls):
             out(f"HARNESS-ERROR violation of seed {r['seed']} ({cls} [{key}]) did not reproduce in-process: {res1.get('harness_error') or res1['violations'][:1]}")
             return batch.EXIT_HARNESS
         small, rs = case, res1
         if gi < MAX_SHRUNK:
-            cand = batch.shrink_case(cfg["engine"], case, res1, budget_s=60)
-            rc = batch.run_case(cfg["engine"], cand)
+            cand = batch.shrink_case(eng, case, res1, budget_s=60)
+            rc = batch.run_case(eng, cand)
             if batch.has_class(rc, cls) and not rc.get("harness_error"):
                 small, rs = cand, batch.put_first(rc, cls)
-        path = batch.write_replay(prop, cfg["engine"], small, rs)
+        path = batch.write_replay(prop, eng, small, rs)
         if gi < MAX_SHRUNK:
             ok, log = batch.replay_fresh(path)
             if not ok:
@@ -274,9 +296,19 @@ def run_check(args):
         out(f"  ... and {len(ordered) - MAX_GROUPS} more distinct violation groups (not replayed individually)")
 
     if not args.no_evidence:
-        cov = mod.summarize(results, args.tier)
+        cov = mod.summarize(main_results, args.tier)
+        for st, rs in stage_results:
+            sm_ = batch.engine_module(st["engine"]).summarize(rs, args.tier)
+            cov.setdefault("stages", {})[st["name"]] = sm_
+            cov["evaluations"] += sm_.get("evaluations", 0)
+            cov["distinct_nontrivial"] += sm_.get("distinct_nontrivial", 0)
+            for k, n in (sm_.get("faults_fired") or {}).items():
+                cov.setdefault("faults_fired", {})
+                cov["faults_fired"][k] = cov["faults_fired"].get(k, 0) + n
+        if stage_results:
+            cov["rule"] += "  (+ extra stages, each with its own rule under 'stages'; evaluations and distinct_nontrivial are sums over the stages)"
         cov["runs"] = len(results)
-        cov["seeds"] = dict(first=seeds[0], last=seeds[len(results) - 1] if results else seeds[0], verif_seed=int(args.seed))
+        cov["seeds"] = dict(first=seeds[0], last=seeds[len(main_results) - 1] if main_results else seeds[0], verif_seed=int(args.seed))
         cov["runs_per_hour"] = int(len(results) / wall * 3600) if wall > 0 else 0
         cov["jobs"] = args.jobs
         if det is not None:
